@@ -13,8 +13,10 @@ Line protocol (one case per line, `key=value` tokens, lists comma separated, `[]
   jg props=<name:type,...> req=<names> df=<name:v,...> ns=<name:ns,...>
      -> ok props=... req=... df=... ns=...   |  E:key
 
-  h5 disk=<path@node=in:out;in:out+...> cache=<tol>|<path>|<node>|<name> write=<in:out|_>
-     -> c=<tol>|<path>|<node>|<name> sees=<in:out;...> after=<in:out;... seen by a fresh attach after the write>
+  h5 disk=<path@node=in:out;in:out+...> cache=<tol>|<path>|<node>|<name> mid=<in:out|_> write=<in:out|_>
+       mid   : entry the ORIGINAL writes between pickle.dumps and pickle.loads
+       write : entry the RESTORED cache writes
+     -> c=<tol>|<path>|<node>|<name> sees=<in:out;... read by the restored cache> after=<in:out;... seen by a fresh attach after the write>
 -/
 
 def kvs (toks : List String) : List (String × String) :=
@@ -122,7 +124,12 @@ def answerH5 (m : List (String × String)) : String :=
     | none => "bad-op"
     | some t =>
       let c0 := HCache.attach d ⟨t, p, n, nm⟩
-      let c1 := HCache.setstate d c0.getstate
+      let st := c0.getstate                       -- pickle.dumps(c0)
+      let mid := field m "mid"                    -- the original writes an entry before the state is restored
+      let d := if mid = "_" || mid = "[]" then d else match parseEntry mid with
+        | some e => (c0.write d e).1
+        | none => d
+      let c1 := HCache.setstate d st              -- pickle.loads
       let sees := c1.read d
       let w := field m "write"
       let d' := if w = "_" then d else match parseEntry w with
